@@ -27,9 +27,14 @@
  *
  * Environment assumptions: a closed CAN controller receives nothing (frame events are disabled while the
  * driver is closed); during a bit-timing activation the master sends no NMT/SDO traffic and no second
- * activation request (CiA 305 forbids any traffic then; LSS frames are explored nevertheless);
+ * activation request (CiA 305 forbids any traffic then; other LSS frames are explored nevertheless);
  * the application's COLssStore/COLssLoad honour the documented contract "argument 0 = leave unchanged"
- * (world.c stores the raw arguments, the harness patches DRV.lss_* accordingly after a successful store). */
+ * (world.c stores the raw arguments, the harness patches DRV.lss_* accordingly after a successful store).
+ *
+ * Options: part=1 addressing sub-alphabet, part=2 configuration sub-alphabet (both close), part=0 everything;
+ * small=1 fewer argument values; liveness=1 alarm when an activation is not over after twice its delay (#31);
+ * reactivate=1 allow a second activation request while one is pending; drvbaud=1 additionally require that
+ * the CAN driver was re-enabled with the new rate at the reset (the stack only updates Node.Baudrate). */
 #include <stdio.h>
 #include <stdlib.h>
 #include "mc.h"
